@@ -170,40 +170,82 @@ def _limits(mem_bytes):
     return f
 
 
-def run_stream(exe, requests, args=(), timeout=600, mem_bytes=None, isolate=False, per_line_timeout=20):
+def _run_watched(exe, args, data, timeout, per_line_timeout, mem_bytes):
+    """run `exe` on `data`; returns (complete output lines, status) where status is None when the process ended by itself
+    and consumed everything, 'hang' when no new output line appeared for per_line_timeout seconds (or the total timeout
+    passed) and the process had to be killed, 'abort' when it died before answering every line"""
+    import selectors, threading
+    p = subprocess.Popen([exe] + list(args), stdin=subprocess.PIPE, stdout=subprocess.PIPE, stderr=subprocess.DEVNULL,
+                         preexec_fn=_limits(mem_bytes))
+
+    def feed():
+        try:
+            p.stdin.write(data.encode())
+            p.stdin.close()
+        except (BrokenPipeError, OSError):
+            pass
+    t = threading.Thread(target=feed, daemon=True)
+    t.start()
+    sel = selectors.DefaultSelector()
+    sel.register(p.stdout, selectors.EVENT_READ)
+    buf = b""
+    t_end = time.time() + timeout
+    last = time.time()
+    status = None
+    fd = p.stdout.fileno()
+    while True:
+        now = time.time()
+        wait = min(t_end - now, last + per_line_timeout - now)
+        if wait <= 0:
+            status = "hang"
+            break
+        if not sel.select(timeout=wait):
+            continue
+        chunk = os.read(fd, 1 << 16)
+        if not chunk:
+            break
+        if b"\n" in chunk:
+            last = time.time()
+        buf += chunk
+    if status == "hang":
+        p.kill()
+    p.wait()
+    sel.close()
+    out = buf.decode("utf-8", "replace").split("\n")
+    tail = out.pop() if out else ""      # text after the last newline: an incomplete line (dropped)
+    return out, status
+
+
+def run_stream(exe, requests, args=(), timeout=600, mem_bytes=None, isolate=False, per_line_timeout=60, max_hangs=6):
     """Feed request lines to `exe`; return list of response lines (same length).
-    If the process dies or hangs, the line it was working on gets 'abort' / 'hang' and the
-    stream resumes with the next line (only when isolate=True; otherwise the rest is 'lost')."""
+    If the process dies or stops answering (no new response line for per_line_timeout seconds), the line it was working on
+    gets 'abort' / 'hang' and the stream resumes with the next line (only when isolate=True; otherwise the rest is 'lost').
+    A response line is only attributed to a request when the process flushes per line (`--flush`) or ends normally."""
     responses = []
     start = 0
     n = len(requests)
+    t_end = time.time() + timeout
     while start < n:
         data = "\n".join(requests[start:]) + "\n"
-        try:
-            p = subprocess.run([exe] + list(args), input=data, stdout=subprocess.PIPE, stderr=subprocess.DEVNULL, text=True,
-                               timeout=timeout, preexec_fn=_limits(mem_bytes))
-            out = p.stdout.split("\n")
-            if out and out[-1] == "":
-                out.pop()
-            status = "abort"
-        except subprocess.TimeoutExpired as e:
-            raw = e.stdout or ""
-            if isinstance(raw, bytes):
-                raw = raw.decode("utf-8", "replace")
-            out = raw.split("\n")
-            if out and out[-1] != "":
-                out.pop()  # partial line
-            elif out:
-                out.pop()
-            status = "hang"
+        # the per-line watchdog is only meaningful when the process flushes every response line
+        plt = per_line_timeout if "--flush" in args else timeout
+        out, status = _run_watched(exe, args, data, max(1.0, t_end - time.time()), plt, mem_bytes)
         responses.extend(out[: n - start])
         got = len(out)
         if start + got >= n:
             break
-        # died at line start+got
-        responses.append(status)
+        # died / hung at line start+got
+        responses.append(status or "abort")
         start = start + got + 1
+        hangs = sum(1 for r in responses if r == "hang")
+        if hangs >= max_hangs:
+            # every hang costs per_line_timeout seconds: enough evidence, do not spend the rest of the budget waiting
+            responses.extend(["lost"] * (n - start))
+            break
         if not isolate:
+            responses.extend(["lost"] * (n - start))
+            break
+        if time.time() >= t_end:
             responses.extend(["lost"] * (n - start))
             break
     return responses[:n]
@@ -211,7 +253,8 @@ def run_stream(exe, requests, args=(), timeout=600, mem_bytes=None, isolate=Fals
 
 def run_isolated(exe, requests, mem_bytes=2 << 30, timeout_total=900, args=()):
     """C14-style run: line-buffered so that a crash loses only the offending line."""
-    return run_stream(exe, requests, args=list(args) + ["--flush"], timeout=timeout_total, mem_bytes=mem_bytes, isolate=True)
+    return run_stream(exe, requests, args=list(args) + ["--flush"], timeout=timeout_total, mem_bytes=mem_bytes, isolate=True,
+                      per_line_timeout=25, max_hangs=4)
 
 
 def run_driver(requests, timeout=900):
